@@ -1,8 +1,22 @@
 package main
 
-import "verif/harness/props/c15"
+import (
+	"github.com/DrmagicE/gmqtt/config"
+
+	"verif/harness/props/c15"
+	"verif/harness/redisx"
+)
 
 func init() {
+	c15.RedisCfgHook = func(c *config.Config) (func(), func(f func(pos int, args [][]byte) string), error) {
+		e, err := redisx.NewEnv()
+		if err != nil {
+			return nil, nil, err
+		}
+		c.Persistence.Type = config.PersistenceTypeRedis
+		c.Persistence.Redis.Addr = e.Srv.Addr()
+		return e.Close, e.Srv.SetFault, nil
+	}
 	registry["C15"] = entry{run: c15.Run, level: "exploration",
 		rule: "cases = chaos runs against one broker each, built with the Go race detector and seeded delays at the broker's lock hand-over points: 20-60 scripted v3.1.1/v5 clients (a third sharing client ids) connect, subscribe/unsubscribe (overlapping, shared), publish QoS0-2 (retained, aliases), stop acknowledging, DISCONNECT, close abruptly, some connections never complete CONNECT, while 4 API goroutines call Publisher, SubscriptionService, ClientService (incl. TerminateSession), StatsManager and RetainedService; wills with delays and 1 s session expiries fire meanwhile; Stop is called while traffic flows; GOMAXPROCS rotates over 16/2/4/1. Monitors: race log, recovered and fatal panics, 30 s request watchdog with two goroutine dumps, Stop result, listeners, sockets at EOF, plugin Load/Unload/OnStop counts, goroutine profile polled for 10 s; plus porcupine linearizability of recorded concurrent histories of the retained and subscription stores. Distinct by run parameters / history.",
 		assumptions: []string{"the Go race detector sees only the schedules produced", "goroutines are attributed to gmqtt by function name (one broker at a time in the process)"}}
